@@ -21,6 +21,28 @@ fn usage() -> ! {
     std::process::exit(2);
 }
 
+/// A `log` back end that renders every record (at Trace) into a discarded buffer.  With it
+/// installed the library's log statements really format their arguments - as they do for a user
+/// who runs with a logger at debug or trace level - so a `{:?}` that can panic or spin inside a
+/// log line is executed under the monitors.  Installed for odd seeds; even seeds run without any
+/// logger, as most consumers do.
+struct SinkLogger;
+static LOG_RECORDS: std::sync::atomic::AtomicU64 = std::sync::atomic::AtomicU64::new(0);
+impl log::Log for SinkLogger {
+    fn enabled(&self, _m: &log::Metadata) -> bool {
+        true
+    }
+    fn log(&self, record: &log::Record) {
+        use std::fmt::Write;
+        let mut s = String::new();
+        let _ = write!(s, "{}", record.args());
+        std::hint::black_box(s.len());
+        LOG_RECORDS.fetch_add(1, std::sync::atomic::Ordering::Relaxed);
+    }
+    fn flush(&self) {}
+}
+static SINK: SinkLogger = SinkLogger;
+
 /// CPU seconds one monitored call may consume before it is reported as not terminating.
 const GENERIC_CPU_BUDGET_S: u64 = 120;
 
@@ -79,6 +101,14 @@ fn main() {
         .unwrap_or(seed);
 
     mon::install_panic_hook();
+    let with_logger = match std::env::var("VERIF_LOGGER").ok().as_deref() {
+        Some("0") => false,
+        Some(_) => true,
+        None => seed % 2 == 1,
+    };
+    if with_logger && log::set_logger(&SINK).is_ok() {
+        log::set_max_level(log::LevelFilter::Trace);
+    }
     if let Err(e) = cal::self_check() {
         eprintln!("HARNESS-ERROR: calendar self-check failed: {}", e);
         std::process::exit(2);
@@ -123,6 +153,8 @@ fn main() {
         std::process::exit(2);
     };
     run(&mut ctx);
+    ctx.obs.count(if with_logger { "run_with_a_trace_level_logger_rendering_every_record" } else { "run_without_a_logger" }, 1);
+    ctx.obs.count("log_records_rendered", LOG_RECORDS.load(std::sync::atomic::Ordering::Relaxed));
     let code = ctx.finish();
     std::process::exit(code);
 }
